@@ -128,9 +128,18 @@ def call_shape(call, before):
     return "+".join(shape) or "new"
 
 
-def check_history(hist, steps, obs_table):
-    """-> None or (step index, signature, detail) for the FIRST divergent step of the behaviour"""
+LABEL_ASPECTS = {"vlabels", "elabels", "label-index"}
+
+
+def check_history(hist, steps, obs_table, lenient_labels=True):
+    """-> list of (step index, signature, detail).  Checking stops at the first divergent step of the
+    behaviour (the state is corrupt from there on) - except for a divergence that concerns ONLY the label
+    index/listings: it is reported once and the rest of the behaviour is still checked with the label
+    aspects masked, so that a stale label index (a known finding for re-labelled elements) does not hide
+    everything that happens later in the same history."""
     before = {}
+    found = []
+    mask = set()
     for n, (h, st) in enumerate(zip(hist, steps)):
         call = h["call"]
         after = nstate(h["after"])
@@ -139,16 +148,16 @@ def check_history(hist, steps, obs_table):
         want = h["res"]
         got = st["res"]
         if got == "panic":
-            return (n, "store %s: panic %s" % (tag, st.get("msg", "")[:60]), st.get("msg"))
+            return found + [(n, "store %s: panic %s" % (tag, st.get("msg", "")[:60]), st.get("msg"))]
         if want != "any" and want != got:
             if want == "error":
                 tag = "%s(invalid)" % call["op"] if shape != "no-graph" else tag
-            return (n, "store %s: returns %s, specified %s" % (tag, got, want), st.get("msg"))
+            return found + [(n, "store %s: returns %s, specified %s" % (tag, got, want), st.get("msg"))]
         if want == "error":
             tag = "%s(invalid)" % call["op"] if shape != "no-graph" else tag
         obs = obs_table.get(json.dumps(after, sort_keys=True))
         if obs is None:
-            return (n, "harness: spec state missing from observation table", "")
+            return found + [(n, "harness: spec state missing from observation table", "")]
         obs = dictify(obs)
         real = st["obs"]
         aspects = []
@@ -164,15 +173,21 @@ def check_history(hist, steps, obs_table):
                     aspects.append("other-graph-affected")
                 else:
                     aspects += asp
+        aspects = [a for a in aspects if a not in mask]
         if aspects:
-            return (n, "store %s: %s" % (tag, ",".join(sorted(classes(aspects)))), dict(aspects=sorted(set(aspects))))
+            rec = (n, "store %s: %s" % (tag, ",".join(sorted(classes(aspects)))), dict(aspects=sorted(set(aspects))))
+            if lenient_labels and set(aspects) <= LABEL_ASPECTS:
+                found.append(rec)
+                mask |= LABEL_ASPECTS
+            else:
+                return found + [rec]
         # timestamps
         for g, changed in (st.get("tsChanged") or {}).items():
             if g in h["changed"] and not changed:
-                return (n, "store %s: timestamp unchanged after a successful mutation" % tag, g)
+                return found + [(n, "store %s: timestamp unchanged after a successful mutation" % tag, g)]
             if changed and g != call.get("g"):
-                return (n, "store %s: timestamp of another graph changed" % tag, g)
+                return found + [(n, "store %s: timestamp of another graph changed" % tag, g)]
             if changed and want == "error":
-                return (n, "store %s: timestamp changed by a failed call" % tag, g)
+                return found + [(n, "store %s: timestamp changed by a failed call" % tag, g)]
         before = after
-    return None
+    return found
